@@ -24,6 +24,22 @@ theorem thread_local (t : Thread) (sched : Sched) (s : State) :
     slice (runSched sched s).1 t = (lrun t (localView t sched s) (slice s t)).1 :=
   ⟨(lrun_view t sched s).2, (lrun_view t sched s).1⟩
 
+/-- `thread_local_alone`: the same statement with a literal "run alone".  Delete every step of every
+    other thread from the interleaving: what `t` observes does not change.  Hypotheses (each is
+    necessary): the other threads do not register default handlers (registration is global by
+    design); `t`'s own steps are not `inherit` (whose result is, by design, the parent's runtime at
+    that step — covered by `thread_local` and `inherit_reads_parent_now`); and `t` names only objects
+    it could name when alone: objects that exist in the start state or that it creates itself
+    (`Own`), its start slice mentioning only such objects (`ClosedSlice`).  The other threads are
+    completely unconstrained otherwise: they may enter, leave, derive from and request through the
+    very objects `t` is using. -/
+theorem thread_local_alone (t : Thread) (sched : Sched) (s : State)
+    (hclosed : ClosedSlice s t (slice s t))
+    (hreg : ∀ t' o, (t', o) ∈ sched → t' ≠ t → ∀ ty hh, o ≠ .registerDefault ty hh)
+    (hown : ∀ o, (t, o) ∈ sched → (∀ p, o ≠ .inherit p) ∧ ∀ r ∈ opIds o, Own s t r) :
+    obsOf t (runSched sched s).2 = obsOf t (runSched (sched.filter (fun st => st.1 == t)) s).2 :=
+  alone_view s t sched s s ⟨rfl, rfl, fun _ _ => rfl, hclosed, fun _ => Nat.le_refl _⟩ hreg hown
+
 /-- the frame lemma behind it: one step of another thread leaves `t`'s slice untouched -/
 theorem other_thread_step_frame (s : State) (t t' : Thread) (o : Op) (h : t' ≠ t) :
     slice (step s t o).1 t' = slice s t' :=
@@ -128,6 +144,21 @@ example : obsOf 0 (runSched sched1 s1).2 = [.unit, .unit, .served 70] := by deci
 example : obsOf 1 (runSched sched1 s1).2 = [.unit, .served 71, .unit, .served 70] := by decide
 example : obsOf 2 (runSched sched1 s1).2 = [.served 70] := by decide
 example : obsOf 3 (runSched sched1 s1).2 = [.unit, .served 71] := by decide
+
+/-- the hypotheses of `thread_local_alone` are satisfiable: in `s1` no thread has a runtime or a
+    saved stack, (0,0) exists, and threads 0, 1, 2 of `sched1` name only (0,0) and never inherit -/
+example : ∀ t, ClosedSlice s1 t (slice s1 t) := by
+  intro t
+  constructor
+  · intro r h; simp [slice, s1, s0, step, alloc] at h
+  · intro r' r h
+    simp only [slice, s1, s0, step, alloc] at h
+    by_cases e : r' = (0, 0)
+    · subst e; simp at h
+    · simp [e] at h
+example : Own s1 1 (0, 0) := Or.inr (by decide)
+example : obsOf 1 (runSched sched1 s1).2 = obsOf 1 (runSched (sched1.filter (fun st => st.1 == 1)) s1).2 := by
+  decide
 
 /-- The OLD code (one `previous` field per object, F4): A enters r, B enters r, A leaves — A's slot
     now holds what B saved, not A's own prior runtime: B's block changed A's handler context. -/
